@@ -342,6 +342,32 @@ int main(int argc, char ** argv)
       }
   }
   if (pshard == 0 && which == 0) {
+    // the quadruple-beta mode exists between ground states only: an excited daughter level (0+ or 2+) must be refused
+    for (const char * iso : {"Zr96", "Xe136", "Nd150"})
+      for (int level = 1; level <= 9; level++) {
+        grid_cells++;
+        decay0_generator G;
+        bool refused = throws([&] {
+          G.set_decay_category(decay0_generator::DECAY_CATEGORY_DBD);
+          G.set_decay_isotope(iso);
+          G.set_decay_dbd_level(level);
+          G.set_decay_dbd_mode(bxdecay0::DBDMODE_20);
+          Tape t2(seed, 14);
+          G.initialize(t2);
+        });
+        if (!refused || G.is_initialized()) {
+          std::string key = "invalid-configuration-accepted|quadruple-beta-to-an-excited-level";
+          Mismatch & x = mm[key];
+          if (x.count++ == 0) {
+            x.key = key;
+            x.detail = fmt("initialize() accepts %s, level %d, mode 0nu4b", iso, level);
+          }
+        } else {
+          grid_refused++;
+        }
+      }
+  }
+  if (pshard == 0 && which == 0) {
     // names that only contain a supported name (leading junk) are invalid configurations
     static const struct { const char * name; bool dbd; } JUNK[] = {{" Mo100", true}, {"xMo100", true}, {"A=100:Mo100", true}, {" K40", false}, {"xK40", false}, {"my_Bi214", false}, {"60Co60", false}};
     for (auto & j : JUNK) {
